@@ -10,5 +10,9 @@ Definition toks_of (i : item) : list tok :=
   | IDot s => [TP [46]; TId s]
   | IOpen => [TP [40]]
   | IClose => [TP [41]]
+  | IQuest => [TP [63]]
+  | IColon => [TP [58]]
+  | ILBrack => [TP [91]]
+  | IRBrack => [TP [93]]
   end.
 Definition toks (l : list item) : list tok := flat_map toks_of l.
